@@ -297,6 +297,7 @@ def run(ctx):
     # ------------------------------------------------------------------ C06.h
     _component_rules(ctx, repo)
     _measurement_semantics_rule(ctx, repo)
+    _conservation_rule(ctx, repo)
 
 
 def _recursion_forwarding(ctx, repo):
@@ -501,3 +502,211 @@ def _measurement_semantics_rule(ctx, repo):
                        'H then measure, or a Pauli-X measurement, makes the transformer drop a Z that changes the outcome', m.rel, i_.lineno)
     if n_sites == 0:
         raise AnalysisError('no is_measurement() guard left in cirq.transformers')
+
+
+# ---------------------------------------------------------------------------------------------------------------- C06.j
+# Functions whose per-operation rebuild loop has paths on which the operation is *not* carried into the output.
+#   qual -> (number of such exits, kind, reason[, (guard function, feature that guard must test)])
+# kind 'removal'      : dropping operations is the documented purpose of the transformer.
+# kind 'precondition' : the dropped case cannot occur because the named guard function refuses it first; the rule checks that the guard still tests that feature.
+DROP_TABLE = {
+    'cirq.transformers.analytical_decompositions.two_qubit_to_cz._remove_partial_czs_or_fail':
+        (1, 'removal', 'removes CZ**t with t = 0 (mod 2) within atol, which is the identity; any other partial CZ raises'),
+    'cirq.transformers.diagonal_optimization.drop_diagonal_before_measurement':
+        (1, 'removal', 'removes Z/CZ powers all of whose qubits are measured afterwards (its purpose); every other operation is re-appended'),
+    'cirq.transformers.lightcone_filter.lightcone_filter':
+        (1, 'removal', 'a filter: keeps exactly the operations inside the backward light cone of the measurements'),
+    'cirq.transformers.gauge_compiling.multi_moment_cphase_gauge.CPhaseGaugeTransformerMM.gauge_on_moments':
+        (1, 'precondition', 'gate-less operations never reach the loop: is_target_moment refuses a moment that contains one',
+         ('cirq.transformers.gauge_compiling.multi_moment_gauge_compiling.MultiMomentGaugeTransformer.is_target_moment', 'gate-is-none')),
+    'cirq.transformers.merge_single_qubit_gates.merge_single_qubit_moments_to_phxz.merge_func':
+        (1, 'precondition', 'only moments accepted by can_merge_moment (every operation acts on at most one qubit) are merged',
+         ('cirq.transformers.merge_single_qubit_gates.merge_single_qubit_moments_to_phxz.can_merge_moment', 'num-qubits')),
+}
+_OP_ATTRS = {'gate', 'qubits', 'tags', 'untagged', 'with_tags', 'without_classical_controls', 'classical_controls'}
+_SINKS = {'Moment', 'from_moments', 'Circuit', 'FrozenCircuit'}
+
+
+def _refuses(fn, feature) -> bool:
+    """The guard function tests `feature` on its operations and answers False for it."""
+    from ..flow import conjuncts
+    src_tests = [n for n in ast.walk(fn) if isinstance(n, (ast.If, ast.IfExp, ast.BoolOp, ast.Compare, ast.Call))]
+    if feature == 'gate-is-none':
+        for i_ in ast.walk(fn):
+            if isinstance(i_, ast.If) and any(isinstance(s, ast.Return) and isinstance(s.value, ast.Constant) and s.value.value is False for s in i_.body):
+                for a, pol in conjuncts(i_.test, True):
+                    if pol and isinstance(a, ast.Compare) and isinstance(a.left, ast.Attribute) and a.left.attr == 'gate' and isinstance(a.ops[0], ast.Is) \
+                            and isinstance(a.comparators[0], ast.Constant) and a.comparators[0].value is None:
+                        return True
+                    if not pol and isinstance(a, ast.Attribute) and a.attr == 'gate':
+                        return True
+        return False
+    if feature == 'num-qubits':
+        # all(num_qubits(op) <= 1 and ... for op in m): a conjunct comparing num_qubits(op) / len(op.qubits) with <= 1 or < 2 inside all(...)
+        for c in ast.walk(fn):
+            if isinstance(c, ast.Call) and call_name(c) == 'all' and c.args and isinstance(c.args[0], ast.GeneratorExp):
+                for a, pol in conjuncts(c.args[0].elt, True):
+                    if pol and isinstance(a, ast.Compare) and len(a.ops) == 1 and 'qubits' in ast.unparse(a.left) and isinstance(a.comparators[0], ast.Constant):
+                        k = a.comparators[0].value
+                        if (isinstance(a.ops[0], ast.LtE) and k == 1) or (isinstance(a.ops[0], ast.Lt) and k == 2):
+                            return True
+        return False
+    raise AnalysisError(f'unknown guard feature {feature}')
+
+
+def _conservation_rule(ctx, repo):
+    """C06.j - a loop that rebuilds a moment operation by operation carries every operation over (or raises), unless dropping is tabled."""
+    from ..flow import name_deps
+    ctx.decided.append('C06.j loops that rebuild a moment/circuit operation by operation re-emit (or replace) every operation on every path or raise; the only exits that drop an '
+                       'operation are the tabled removals of drop_diagonal_before_measurement / lightcone_filter and two cases refused beforehand by a guard that is checked too')
+    ctx.rule('C06.j', 'operation conservation: in the transformer packages, for every loop over operations whose body appends operation-derived values to a list that flows into '
+             'Moment(...)/Circuit(...), every path through the body appends, raises, or is one of the tabled drop exits (removal by contract, or a case the tabled guard function '
+             'refuses - the guard is re-checked); loops whose source moment is re-emitted whole are additive and exempt', floor=8, style='MPT')
+    E: set = set()
+    seen_loops = set()
+    n = 0
+    used_table = set()
+    for m, cls, fn, qual in _functions(repo):
+        if m.rel.endswith('_test.py') or '/testing/' in m.rel:
+            continue
+        empties = set()
+        lists = set()
+        for a in ast.walk(fn):
+            if isinstance(a, (ast.Assign, ast.AnnAssign)) and a.value is not None:
+                v = a.value
+                if (isinstance(v, ast.List) and not v.elts) or (isinstance(v, ast.Call) and call_name(v) == 'list' and not v.args):
+                    lists |= {t.id for t in (a.targets if isinstance(a, ast.Assign) else [a.target]) if isinstance(t, ast.Name)}
+                if (isinstance(v, (ast.List, ast.Dict)) and not (v.elts if isinstance(v, ast.List) else v.keys)) or (isinstance(v, ast.Call) and (
+                        (call_name(v) in ('list', 'dict') and not v.args) or (call_name(v) or '').split('.')[-1] == 'defaultdict')):
+                    for t in (a.targets if isinstance(a, ast.Assign) else [a.target]):
+                        if isinstance(t, ast.Name):
+                            empties.add(t.id)
+        if not empties:
+            continue
+        # innermost function owns the loop
+        nested = {id(x) for f in ast.walk(fn) if f is not fn and isinstance(f, (ast.FunctionDef, ast.AsyncFunctionDef, ast.Lambda)) for x in ast.walk(f)}
+        for loop in [l for l in ast.walk(fn) if isinstance(l, ast.For) and id(l) not in nested]:
+            if id(loop) in seen_loops:
+                continue
+            seen_loops.add(id(loop))
+            tnames = {x.id for x in ast.walk(loop.target) if isinstance(x, ast.Name)}
+            d = set(tnames)
+            ch = True
+            while ch:
+                ch = False
+                for a in ast.walk(loop):
+                    if isinstance(a, ast.Assign) and any(isinstance(x, ast.Name) and x.id in d for x in ast.walk(a.value)):
+                        for t in a.targets:
+                            for x in ast.walk(t):
+                                if isinstance(x, ast.Name) and isinstance(x.ctx, ast.Store) and x.id not in d and x.id not in empties:
+                                    d.add(x.id)
+                                    ch = True
+            # the loop variable is used as an operation
+            if not any(isinstance(x, ast.Attribute) and x.attr in _OP_ATTRS and isinstance(x.value, ast.Name) and x.value.id in tnames for x in ast.walk(loop)):
+                continue
+
+            def mentions(e):
+                return any(isinstance(x, ast.Name) and x.id in d for x in ast.walk(e))
+
+            def acc_of(node):
+                if isinstance(node, ast.Expr) and isinstance(node.value, ast.Call) and isinstance(node.value.func, ast.Attribute) \
+                        and node.value.func.attr in ('append', 'extend', 'insert') and any(mentions(a) for a in node.value.args):
+                    b = node.value.func.value
+                    while isinstance(b, ast.Subscript):
+                        b = b.value
+                    return b.id if isinstance(b, ast.Name) else None
+                if isinstance(node, ast.AugAssign) and isinstance(node.op, ast.Add) and isinstance(node.target, ast.Name) and mentions(node.value):
+                    return node.target.id
+                if isinstance(node, ast.Assign) and len(node.targets) == 1 and isinstance(node.targets[0], ast.Subscript) and isinstance(node.targets[0].value, ast.Name) \
+                        and (mentions(node.targets[0].slice) or mentions(node.value)):
+                    return node.targets[0].value.id  # D[op] = ... / D[k] = op-derived
+                return None
+            accs = {acc_of(s) for s in ast.walk(loop)} & empties
+            if not accs:
+                continue
+            deps = name_deps(fn, {a: {a} for a in accs})
+            sinks = set()
+            for c in ast.walk(fn):
+                if isinstance(c, ast.Call) and (call_name(c) or '').split('.')[-1] in _SINKS:
+                    for x in ast.walk(c):
+                        if isinstance(x, ast.Name) and x.id in deps:
+                            sinks |= deps[x.id]
+                if isinstance(c, (ast.Return, ast.Yield, ast.YieldFrom)) and c.value is not None:
+                    for x in ast.walk(c.value):
+                        if isinstance(x, ast.Name) and x.id in deps and x.id in lists:  # a returned list of operations; returned dicts are summaries, not circuits
+                            sinks |= deps[x.id]
+            accs &= sinks
+            if not accs:
+                continue
+            # additive loops: the iterated container itself is emitted whole elsewhere in the function
+            root = loop.iter
+            while isinstance(root, (ast.Attribute, ast.Subscript)):
+                root = root.value
+            if isinstance(root, ast.Call) and root.args:
+                root = root.args[0]
+            additive = False
+            if isinstance(root, ast.Name):
+                for c in ast.walk(fn):
+                    if id(c) in {id(x) for x in ast.walk(loop)}:
+                        continue
+                    if isinstance(c, ast.Call) and isinstance(c.func, ast.Attribute) and c.func.attr in ('append', 'extend') \
+                            and any(isinstance(a_, ast.Name) and a_.id == root.id for a_ in c.args):
+                        additive = True
+                    if isinstance(c, ast.Return) and c.value is not None and any(isinstance(x, ast.Call) and call_name(x) in ('list', 'tuple') and x.args
+                                                                                   and isinstance(x.args[0], ast.Name) and x.args[0].id == root.id for x in ast.walk(c.value)):
+                        additive = True
+            if additive:
+                continue
+
+            def always_emits(stmts):
+                w = PathWalker(lambda node, s: [True] if (s or acc_of(node) in accs) else [s])
+                o, b, c_ = w.block(stmts, {False})
+                return bool(o | b | c_) and all(o | b | c_)
+
+            class W(PathWalker):
+                def stmt(self, st, states):
+                    if isinstance(st, ast.For) and always_emits(st.body):
+                        return {(True, s[1]) for s in states}, E, E
+                    return super().stmt(st, states)
+            w = W(lambda node, s: [(True, s[1])] if (s[0] or acc_of(node) in accs) else [s], lambda test, taken, s: [(s[0], (test.lineno, taken))])
+            try:
+                out, brk, cont = w.block(loop.body, {(False, None)})
+            except RuntimeError:
+                ctx.unres('C06.j', f'{qual}:for {ast.unparse(loop.target)}', 'path explosion', m.rel, loop.lineno)
+                continue
+            ends = out | cont | brk
+            drops = sorted({s[1] for s in ends if not s[0]}, key=str)
+            if not any(s[0] for s in ends):
+                continue  # not a rebuild loop: no path carries the operation over
+            n += 1
+            key = f'{qual}:for {ast.unparse(loop.target)}'
+            allowed = DROP_TABLE.get(qual)
+            if allowed:
+                used_table.add(qual)
+            if not drops:
+                ctx.ob('C06.j', key, True, 'every path appends to ' + '/'.join(sorted(accs)), m.rel, loop.lineno)
+                continue
+            lines = {ln: src for ln, src in ((t.lineno, ast.unparse(t)) for t in ast.walk(loop) if isinstance(t, ast.expr) and hasattr(t, 'lineno'))}
+            desc = '; '.join(f'line {dl[0]} `{lines.get(dl[0], "?")[:70]}` is {dl[1]}' if dl else 'the straight-line path' for dl in drops)
+            if allowed is None or len(drops) > allowed[0]:
+                ctx.ob('C06.j', key, False, f'{len(drops)} exit(s) of the loop body leave the operation out of {"/".join(sorted(accs))} ({desc})'
+                       + (f'; only {allowed[0]} is tabled ({allowed[2]})' if allowed else '; no removal is tabled for this function') + ': the operation vanishes from the output circuit',
+                       m.rel, loop.lineno, construct=qual)
+                continue
+            if allowed[1] == 'precondition':
+                gq, feat = allowed[3]
+                gfn = None
+                for m2, c2, f2, q2 in _functions(repo):
+                    if q2 == gq:
+                        gfn = f2
+                if gfn is None:
+                    raise AnalysisError(f'C06.j: guard function {gq} vanished')
+                okg = _refuses(gfn, feat)
+                ctx.ob('C06.j', key + ':guard', okg, f'drop exit justified by {gq.split(".")[-1]} ({allowed[2]})' if okg else
+                       f'{qual.split(".")[-1]} leaves out operations ({desc}) on the assumption that {gq.split(".")[-1]} refuses them ({feat}), but that guard no longer does: '
+                       'such operations are silently deleted from the circuit', m.rel, loop.lineno, construct=qual)
+            else:
+                ctx.ob('C06.j', key, True, f'tabled removal: {allowed[2]}', m.rel, loop.lineno)
+    stale = set(DROP_TABLE) - used_table
+    if stale:
+        raise AnalysisError(f'C06.j: tabled drop sites not found any more: {sorted(stale)}')
